@@ -75,7 +75,7 @@ import warnings
 # an early failure legitimately leaves sibling coroutines un-awaited (lazy coroutines)
 warnings.filterwarnings("ignore", category=RuntimeWarning, message="coroutine .* was never awaited")
 
-CONFIGS = ["bexec", "brt", "aio", "aiot", "pool", "poole", "prom"]   # prom: a third-party Runtime (sched.PromiseRuntime)  # poole: pool + calls that finish before submit returns
+CONFIGS = ["bexec", "brt", "aio", "aiot", "pool", "poole", "poolh", "prom"]   # prom: a third-party Runtime (sched.PromiseRuntime)  # poole: pool + calls that finish before submit returns
 MODES = ["S", "P", "C", "D", "A", "V"]
 # schema field names: shape + mode (+ variant 0..2 for A and V, whose value is looked up by
 # *name* on the parent: two response keys of one parent must not share such a field)
@@ -226,7 +226,7 @@ def _sdl(layout="distinct"):
 
 
 def deferred(fld, config):
-    if config in ("pool", "poole", "aiot", "prom"):
+    if config in ("pool", "poole", "poolh", "aiot", "prom"):
         return fld["m"] in ("P", "C", "D")
     if config == "aio":
         return fld["m"] in ("C", "D")
@@ -732,11 +732,23 @@ def run_scheduled(program, config, choose, timeout=None):
                 return True
             return False
         ctl = sched.PoolController(eager=is_eager)
+    elif config == "poolh":
+        # the just-submitted call may complete right after any runtime.map_value returned (e.g.
+        # between execute_fields_serially chaining a field's value and its next statement); for
+        # the model this is a call that finished before its submitter went on
+        def is_handoff(lb):
+            if lb[1] > 0 and (lb[0], lb[1] - 1) not in eager:
+                return False
+            if choose(["0wait", "1now"]) == "1now":
+                eager.append(lb)
+                return True
+            return False
+        ctl = sched.PoolController(handoff=is_handoff)
     elif config == "prom":
         ctl = sched.PromiseController()
     else:
         ctl = sched.PoolController() if config == "pool" else sched.LoopController(config == "aiot")
-    base = "pool" if config in ("poole", "prom") else config
+    base = "pool" if config in ("poole", "poolh", "prom") else config
     try:
         run = _Run(program, base, ctl)
         _BOX[0] = run
